@@ -185,8 +185,18 @@ func Connect(a, b *world.Node, hook func(p *Proxy, msg Msg) [][]byte, wait time.
 		err error
 	}
 	ra, rb := make(chan ret, 1), make(chan ret, 1)
-	go func() { l, err := a.Peer.VerifSetupLink(ca, url, true); ra <- ret{l, err} }()
-	go func() { l, err := b.Peer.VerifSetupLink(cb, url, false); rb <- ret{l, err} }()
+	guarded := func(n *world.Node, conn net.Conn, outgoing bool, out chan ret) {
+		defer func() {
+			if r := recover(); r != nil {
+				Panics.Add(1)
+				out <- ret{nil, fmt.Errorf("panic: %v\n%s", r, debug.Stack())}
+			}
+		}()
+		l, err := n.Peer.VerifSetupLink(conn, url, outgoing)
+		out <- ret{l, err}
+	}
+	go guarded(a, ca, true, ra)
+	go guarded(b, cb, false, rb)
 	res := &Result{Proxy: p}
 	var gotA, gotB bool
 	for !gotA || !gotB {
